@@ -107,6 +107,32 @@
 //	                        a hypothesis of the theorem (GIV.ModuleGo.FoldOK), not a definition.  strings.Contains / Count /
 //	                        ContainsRune / LastIndexByte and utf8.ValidString are library meanings (GIV/GoLibStr.lean);
 //	                        semver.IsValid / Major / Build are the translated GIV.Go.Semver definitions (Option results)
+//
+// Additions made for golang.org/x/tools/txtar (archive.go of the x/tools version /repo's go.mod requires, read from
+// the module cache; preset "xtxtar": Format, and the reference Parse / findFileMarker / isMarker / fixNL):
+//
+//	var buf bytes.Buffer    AN ACCUMULATOR.  A local variable declared `var buf bytes.Buffer` or `var sb strings.Builder`
+//	                        (no initializer; `bytes` / `strings` not shadowed) is a Lean `Bytes` that starts empty: the
+//	                        bytes written so far.  It may ONLY be used in the forms below; the bare identifier (`f(buf)`,
+//	                        `b2 := buf`, `&buf` anywhere else, a comparison), any other method (Reset, Truncate, Read…,
+//	                        Grow, WriteRune, WriteTo, …) and a pointer / parameter / field of these types are rejected,
+//	                        so the buffer never aliases and only grows
+//	buf.Write(p)            as a STATEMENT (the (n, err) results dropped — err is always nil): `let buf := buf ++ p`;
+//	buf.WriteString(s)      the argument is evaluated first (it may panic, e.g. a call); likewise WriteString (a string)
+//	buf.WriteByte(c)        and WriteByte (`buf ++ [c]`).  In an expression (`n, err := buf.Write(p)`) they are rejected.
+//	                        A loop whose body writes to the buffer carries it as one of its modified variables
+//	fmt.Fprintf(&buf, "lit", args…)   as a STATEMENT, with a string LITERAL format whose only verbs are plain `%s` (and
+//	                        `%%`), exactly one argument per `%s`, every argument a string or []byte (both print as their
+//	                        bytes): the concatenation, in order, of the literal pieces and the arguments —
+//	                        `fmt.Fprintf(&buf, "-- %s --\n", f.Name)` is `let buf := buf ++ [45,45,32] ++ f.Name ++ [32,45,45,10]`.
+//	                        Every other verb, a flag, width or precision (`%q`, `%v`, `%5s`, `%-s`, `%[1]s`), a format
+//	                        that is not a literal, a wrong argument count or an argument of another type is rejected
+//	buf.String(), buf.Len() the accumulated bytes (a string: a copy) / `GoLib.len buf`, anywhere
+//	buf.Bytes()             the accumulated bytes, ONLY inside a `return` statement: the Go slice aliases the buffer's
+//	                        storage, which nothing can observe once the function has returned (the buffer is a local
+//	                        that never escaped); anywhere else it is rejected
+//	marker, newlineMarker   no rule of its own: with no configured Global the package-level `var marker = []byte("-- ")`
+//	                        is inlined as the literal the LIBRARY source gives (the rule for package-level tables)
 package go2lean
 
 import (
@@ -137,6 +163,7 @@ const (
 	KMap    // map[string]bool that is only read: a predicate Bytes → Bool (a missing key reads false)
 	KFunc   // a function-typed parameter `f func(A, …) R`: an opaque total Lean function A → … → R (Tup = parameters, Elem = result)
 	KNil    // a local slice variable whose nil-ness the code observes: Option of Elem (none = nil), see the package comment
+	KBuffer // a local `var buf bytes.Buffer` / `var sb strings.Builder`: the bytes written so far (Lean Bytes), used only through its methods and fmt.Fprintf(&buf, …)
 )
 
 type Type struct {
@@ -155,6 +182,8 @@ var (
 	TStr   = &Type{K: KBytes, Str: true}
 	TMap   = &Type{K: KMap}
 	TError = &Type{K: KError}
+	// TBuffer: Name is the Go type, for messages only
+	TBuffer = &Type{K: KBuffer, Name: "bytes.Buffer"}
 )
 
 func (t *Type) Lean() string {
@@ -165,7 +194,7 @@ func (t *Type) Lean() string {
 		return "UInt8"
 	case KBool:
 		return "Bool"
-	case KBytes:
+	case KBytes, KBuffer:
 		return "Bytes"
 	case KList:
 		return "(List " + t.Elem.Lean() + ")"
@@ -297,6 +326,7 @@ type tr struct {
 	nilTest  map[string]bool // names compared with nil somewhere in the function being translated
 	iota     int             // value of `iota` while a package-level constant is being inlined (-1 otherwise)
 	deferred []ast.Stmt      // body of the `defer func() { … }()` that opens the function being translated (nil: none)
+	inReturn bool            // the result expressions of a `return` are being translated (buf.Bytes() is allowed only there)
 }
 
 // topLevel finds the initializer of a package-level `const`/`var name = <expr>`.
@@ -518,7 +548,7 @@ func (t *tr) zero(ty *Type) string {
 		return "0"
 	case KBool:
 		return "false"
-	case KBytes, KList:
+	case KBytes, KList, KBuffer:
 		return "[]"
 	case KError, KNil:
 		return "none"
@@ -670,6 +700,9 @@ func (t *tr) exprN(e ast.Expr) val {
 			}
 		}
 		if vi := t.lookup(v.Name); vi != nil {
+			if vi.t.K == KBuffer {
+				t.fail(e, "%s is a %s: only its Write / WriteString / WriteByte statements, fmt.Fprintf(&%s, …), String(), Len() and Bytes() in a return are in the subset", v.Name, vi.t.Name, v.Name)
+			}
 			return val{s: vi.lean, t: vi.t}
 		}
 		if g, ok := t.cfg.Globals[v.Name]; ok {
@@ -1008,6 +1041,27 @@ func (t *tr) call(c *ast.CallExpr) val {
 			return val{pre: pre, s: strings.Join(parts, " "), t: vi.t.Elem}
 		}
 	}
+	if vi, method := t.bufferMethod(c); vi != nil {
+		// reading an accumulator (`var buf bytes.Buffer`): the bytes written so far
+		if len(c.Args) != 0 {
+			t.fail(c, "%s.%s in an expression is outside the subset (the writes are statements)", vi.lean, method)
+		}
+		switch method {
+		case "String":
+			return val{s: vi.lean, t: TStr}
+		case "Len":
+			return val{s: "GoLib.len " + vi.lean, t: TInt}
+		case "Bytes":
+			if vi.t.Name != "bytes.Buffer" {
+				t.fail(c, "%s has no method Bytes", vi.t.Name)
+			}
+			if !t.inReturn {
+				t.fail(c, "%s.Bytes() aliases the buffer: it is in the subset only inside a return statement", vi.lean)
+			}
+			return val{s: vi.lean, t: TBytes}
+		}
+		t.fail(c, "method %s of a %s is outside the subset", method, vi.t.Name)
+	}
 	switch name {
 	case "len":
 		pre, vs := args()
@@ -1180,6 +1234,142 @@ func (t *tr) call(c *ast.CallExpr) val {
 	}
 	t.fail(c, "call of %s is outside the subset", name)
 	return val{}
+}
+
+// ---------------------------------------------------------------- accumulators (bytes.Buffer, strings.Builder)
+
+// bufferType recognises the types `bytes.Buffer` and `strings.Builder` (the package names not shadowed).
+func (t *tr) bufferType(e ast.Expr) *Type {
+	sel, ok := e.(*ast.SelectorExpr)
+	if !ok {
+		return nil
+	}
+	id, ok := sel.X.(*ast.Ident)
+	if !ok || t.lookup(id.Name) != nil {
+		return nil
+	}
+	switch id.Name + "." + sel.Sel.Name {
+	case "bytes.Buffer":
+		return TBuffer
+	case "strings.Builder":
+		return &Type{K: KBuffer, Name: "strings.Builder"}
+	}
+	return nil
+}
+
+// bufferMethod recognises `buf.M(…)` for a local accumulator buf.
+func (t *tr) bufferMethod(c *ast.CallExpr) (*varInfo, string) {
+	sel, ok := c.Fun.(*ast.SelectorExpr)
+	if !ok {
+		return nil, ""
+	}
+	id, ok := sel.X.(*ast.Ident)
+	if !ok {
+		return nil, ""
+	}
+	if vi := t.lookup(id.Name); vi != nil && vi.t.K == KBuffer {
+		return vi, sel.Sel.Name
+	}
+	return nil, ""
+}
+
+// bufferWritten names the accumulator an expression statement writes to: `buf.Write(p)`, `buf.WriteString(s)`,
+// `buf.WriteByte(c)` or `fmt.Fprintf(&buf, …)`; nil when the statement is none of these.
+func (t *tr) bufferWritten(c *ast.CallExpr) *varInfo {
+	if vi, m := t.bufferMethod(c); vi != nil {
+		if m == "Write" || m == "WriteString" || m == "WriteByte" {
+			return vi
+		}
+		return nil
+	}
+	if calleeName(c.Fun) == "fmt.Fprintf" && t.lookup("fmt") == nil && len(c.Args) >= 1 {
+		if u, ok := c.Args[0].(*ast.UnaryExpr); ok && u.Op == token.AND {
+			if id, ok := u.X.(*ast.Ident); ok {
+				if vi := t.lookup(id.Name); vi != nil && vi.t.K == KBuffer {
+					return vi
+				}
+			}
+		}
+	}
+	return nil
+}
+
+// bufferWrite translates a statement that writes to an accumulator (see bufferWritten) into `let` lines.
+func (t *tr) bufferWrite(c *ast.CallExpr, vi *varInfo) []string {
+	if _, m := t.bufferMethod(c); m != "" {
+		if len(c.Args) != 1 || c.Ellipsis.IsValid() {
+			t.fail(c, "%s with %d arguments", m, len(c.Args))
+		}
+		x := t.expr(c.Args[0])
+		if m == "WriteByte" {
+			x = t.coerce(x, TByte)
+			if _, err := strconv.Atoi(x.s); err == nil && x.t != nil && x.t.K == KInt { // an untyped constant
+				x.t = TByte
+			}
+			if x.t == nil || x.t.K != KByte {
+				t.fail(c, "WriteByte of a non-byte")
+			}
+			return append(x.pre, fmt.Sprintf("let %s : Bytes := %s ++ [%s]", vi.lean, vi.lean, x.s))
+		}
+		if x.t == nil || x.t.K != KBytes {
+			t.fail(c, "%s of something other than a string or []byte", m)
+		}
+		return append(x.pre, fmt.Sprintf("let %s : Bytes := %s ++ %s", vi.lean, vi.lean, paren(x.s)))
+	}
+	// fmt.Fprintf(&buf, "literal with %s verbs only", args…)
+	if len(c.Args) < 2 || c.Ellipsis.IsValid() {
+		t.fail(c, "fmt.Fprintf without a format")
+	}
+	lit, ok := c.Args[1].(*ast.BasicLit)
+	if !ok || lit.Kind != token.STRING {
+		t.fail(c, "fmt.Fprintf with a format that is not a string literal")
+	}
+	format, err := strconv.Unquote(lit.Value)
+	if err != nil {
+		t.fail(c, "bad string literal")
+	}
+	var pre, parts []string
+	args := c.Args[2:]
+	piece := ""
+	flush := func() {
+		if piece != "" {
+			parts = append(parts, "("+leanBytes(piece)+" : Bytes)")
+			piece = ""
+		}
+	}
+	for i := 0; i < len(format); i++ {
+		if format[i] != '%' {
+			piece += format[i : i+1]
+			continue
+		}
+		i++
+		switch {
+		case i < len(format) && format[i] == '%':
+			piece += "%"
+		case i < len(format) && format[i] == 's':
+			if len(args) == 0 {
+				t.fail(c, "fmt.Fprintf: more %%s verbs than arguments")
+			}
+			x := t.expr(args[0])
+			args = args[1:]
+			if x.t == nil || x.t.K != KBytes {
+				t.fail(c, "fmt.Fprintf: the argument of %%s is not a string or []byte")
+			}
+			flush()
+			pre = append(pre, x.pre...)
+			parts = append(parts, paren(x.s))
+		default:
+			t.fail(c, "fmt.Fprintf: only plain %%s verbs (and %%%%) are in the subset, the format is %s", lit.Value)
+		}
+	}
+	flush()
+	if len(args) != 0 {
+		t.fail(c, "fmt.Fprintf: more arguments than %%s verbs")
+	}
+	if len(parts) == 0 {
+		return pre
+	}
+	return append(pre, fmt.Sprintf("let %s : Bytes := %s ++ %s", vi.lean, vi.lean, strings.Join(parts, " ++ ")))
 }
 
 // ---------------------------------------------------------------- statements
@@ -1429,6 +1619,17 @@ func (t *tr) assigned(list []ast.Stmt) []*varInfo {
 				if c, ok := v.X.(*ast.CallExpr); ok && calleeName(c.Fun) == "copy" {
 					note(c.Args[0])
 				}
+				if c, ok := v.X.(*ast.CallExpr); ok {
+					if vi := t.bufferWritten(c); vi != nil { // a write to an accumulator visible now
+						for i := range t.scopes {
+							for n, w := range t.scopes[i] {
+								if w == vi {
+									names[n] = true
+								}
+							}
+						}
+					}
+				}
 			}
 			return true
 		})
@@ -1551,6 +1752,9 @@ func (t *tr) block(list []ast.Stmt, k func() string) string {
 			return join(m.pre, "pure (GoLib.Res.fatal "+paren(m.s)+")")
 		}
 		if c, ok := v.X.(*ast.CallExpr); ok {
+			if vi := t.bufferWritten(c); vi != nil { // a write to an accumulator (`var buf bytes.Buffer`)
+				return join(t.bufferWrite(c, vi), rest())
+			}
 			switch calleeName(c.Fun) {
 			case "panic":
 				return "none"
@@ -1573,6 +1777,9 @@ func (t *tr) block(list []ast.Stmt, k func() string) string {
 }
 
 func (t *tr) returnStmt(r *ast.ReturnStmt) string {
+	saveRet := t.inReturn
+	t.inReturn = true
+	defer func() { t.inReturn = saveRet }()
 	var want []*Type
 	if t.ret.K == KTuple {
 		want = t.ret.Tup
@@ -1687,6 +1894,15 @@ func (t *tr) simple(s ast.Stmt) []string {
 			vs := sp.(*ast.ValueSpec)
 			for i, n := range vs.Names {
 				var ty *Type
+				if bt := t.bufferType(vs.Type); vs.Type != nil && bt != nil {
+					// `var buf bytes.Buffer`: an accumulator, the bytes written so far (empty at first)
+					if len(vs.Values) != 0 || gd.Tok != token.VAR {
+						t.fail(s, "a %s with an initializer is outside the subset", bt.Name)
+					}
+					vi := t.declare(n.Name, bt)
+					lines = append(lines, fmt.Sprintf("let %s : %s := %s", vi.lean, bt.Lean(), t.zero(bt)))
+					continue
+				}
 				if vs.Type != nil {
 					ty = t.typeExpr(vs.Type)
 					if t.nilTest[n.Name] && (ty.K == KBytes || ty.K == KList) {
